@@ -873,6 +873,49 @@ Proof.
   - discriminate.
 Qed.
 
+(* CREATE2: the same shape; the address pushed is the (named) EIP-1014 address of the init code read from memory *)
+Theorem evm_do_create2_atomic : forall lim run_sub e s s',
+  do_create2 lim run_sub e s = Continue s' ->
+  (exists v off size salt r,
+      s_stack s = v :: off :: size :: salt :: r /\
+      s_stack s' = c2name (e_block e) (create2_address (e_this e) salt
+                      (mread (mexpand (s_mem s) (Z.to_nat off) (Z.to_nat size)) (Z.to_nat off) (Z.to_nat size))) :: r)
+  \/ s_world s' = s_world s.
+Proof.
+  intros lim run_sub e s s' H. unfold do_create2 in H.
+  destruct (s_stack s) as [|v [|off [|size [|salt r]]]] eqn:Est; try discriminate.
+  case_if H; [discriminate|].
+  case_if H; [discriminate|].
+  cbv zeta in H.
+  case_if H; [apply Continue_inj in H; rewrite <- H; right; reflexivity|].
+  case_if H; [apply Continue_inj in H; rewrite <- H; right; reflexivity|].
+  case_if H; [apply Continue_inj in H; rewrite <- H; right; reflexivity|].
+  destruct (run_sub _ _ _); cbv beta iota in H.
+  - apply Continue_inj in H. rewrite <- H. left. exists v, off, size, salt, r.
+    split; [reflexivity|]. cbn [s_stack]. reflexivity.
+  - apply Continue_inj in H. rewrite <- H. right. reflexivity.
+  - apply Continue_inj in H. rewrite <- H. right. reflexivity.
+  - discriminate.
+  - discriminate.
+Qed.
+
+(* a CREATE2 that does not run a creation frame (depth, funds, collision) leaves the CREATE counter alone;
+   one that does hands the frame the counter UNCHANGED (CREATE hands over counter + 1) *)
+Theorem evm_do_create2_counter : forall lim e s s' rs,
+  (forall e' w' c, rs e' w' c = RHalt c 0) ->
+  do_create2 lim rs e s = Continue s' -> s_ctr s' = s_ctr s.
+Proof.
+  intros lim e s s' rs Hrs H. unfold do_create2 in H.
+  destruct (s_stack s) as [|v [|off [|size [|salt r]]]]; try discriminate.
+  case_if H; [discriminate|].
+  case_if H; [discriminate|].
+  cbv zeta in H.
+  case_if H; [apply Continue_inj in H; rewrite <- H; reflexivity|].
+  case_if H; [apply Continue_inj in H; rewrite <- H; reflexivity|].
+  case_if H; [apply Continue_inj in H; rewrite <- H; reflexivity|].
+  rewrite Hrs in H. apply Continue_inj in H. rewrite <- H. reflexivity.
+Qed.
+
 (* xfer (no-op on zero) and the interpreter's transfer agree on every balance *)
 Theorem xfer_transfer_same_balances : forall w from to v a,
   get_balance (xfer w from to v) a = get_balance (transfer w from to v) a.
